@@ -721,6 +721,15 @@ loop:
 					// error.
 					switch fr.Type() {
 					case FramePriority, FrameWindowUpdate, FrameResetStream:
+					case FrameData:
+						// The peer may have sent this before it saw our
+						// RST_STREAM or our END_STREAM: that is the stream's
+						// problem, not the connection's (RFC 7540 5.1 makes it
+						// a stream error of type STREAM_CLOSED, or something to
+						// ignore after our own reset). The octets still came
+						// out of the connection window.
+						sc.consumeConnWindow(fr.Len())
+						sc.writeReset(fr.Stream(), StreamClosedError)
 					default:
 						sc.writeGoAway(fr.Stream(), StreamClosedError, "frame on closed stream")
 					}
